@@ -49,6 +49,37 @@ package csi
 //@   ensures[C16,C04] @contains cContains(result, beg, end, minShift, depth)
 //@   ensures[C16,C04] @deepest forall k uint32 :: cIsBin(k, depth) && cContains(k, beg, end, minShift, depth) ==> cLevel(k) <= cLevel(result)
 
+// reg2bins: the returned list is exactly the set of bins of the geometry whose
+// span meets [beg,end). Ghost set S mirrors the elements of list, idx gives a
+// position for each member (see internal.OverlappingBinsFor for the scheme).
+//@ func reg2bins
+//@   mode bv
+//@   props C16, C04
+//@   terminates
+//@   requires cGeom(minShift, depth) && cValid(beg, end, minShift, depth)
+//@   ghost S map[uint32]bool
+//@   ghost idx map[uint32]int
+//@   at append#0 ghost S[elem0] = true; idx[elem0] = len(dst)
+//@   loop 0 invariant @shape level <= depth + 1 && t == cOff(level) && (level <= depth ==> s == cShift(level, minShift, depth)) &&
+//@       (cap(list) == 0 || fresh(list))
+//@   loop 0 invariant @witness forall q uint32 :: S[q] ==> (0 <= idx[q] && idx[q] < len(list) && list[idx[q]] == q)
+//@   loop 0 invariant @members forall j in 0..len(list) :: S[list[j]]
+//@   loop 0 invariant @sound forall q uint32 :: S[q] ==> (cIsBin(q, depth) && cOverlaps(q, beg, old(end), minShift, depth))
+//@   loop 0 invariant @complete forall q uint32 :: cIsBin(q, depth) && cOverlaps(q, beg, old(end), minShift, depth) &&
+//@       cLevel(q) < level ==> S[q]
+//@   loop 0 decreases int(depth + 1 - level)
+//@   loop 1 invariant @shape level <= depth && t == cOff(level) && s == cShift(level, minShift, depth) &&
+//@       (cap(list) == 0 || fresh(list)) && b == t + uint32(beg >> s) && e == t + uint32(end >> s) && b <= i && i <= e + 1
+//@   loop 1 invariant @witness forall q uint32 :: S[q] ==> (0 <= idx[q] && idx[q] < len(list) && list[idx[q]] == q)
+//@   loop 1 invariant @members forall j in 0..len(list) :: S[list[j]]
+//@   loop 1 invariant @sound forall q uint32 :: S[q] ==> (cIsBin(q, depth) && cOverlaps(q, beg, old(end), minShift, depth))
+//@   loop 1 invariant @complete forall q uint32 :: cIsBin(q, depth) && cOverlaps(q, beg, old(end), minShift, depth) &&
+//@       (cLevel(q) < level || (cLevel(q) == level && q < i)) ==> S[q]
+//@   loop 1 decreases int(e + 1 - i)
+//@   ensures[C16,C04] @onlyoverlapping forall j in 0..len(result) :: cIsBin(result[j], depth) && cOverlaps(result[j], beg, end, minShift, depth)
+//@   ensures[C16,C04] @alloverlapping forall q uint32 :: cIsBin(q, depth) && cOverlaps(q, beg, end, minShift, depth) ==>
+//@       exists j in 0..len(result) :: result[j] == q
+
 //@ lemma[C16,C04] bv overlapmember: forall k uint32, b1 int64, e1 int64, b2 int64, e2 int64, minShift uint32, depth uint32 ::
 //@     cGeom(minShift, depth) && cValid(b1, e1, minShift, depth) && cValid(b2, e2, minShift, depth) && b1 < e2 && b2 < e1 &&
 //@     cIsBin(k, depth) && cContains(k, b2, e2, minShift, depth) ==> cOverlaps(k, b1, e1, minShift, depth)
